@@ -44,6 +44,13 @@ class Built:
         self.accepted_bad = []
 
 
+def cast_dtype_of(name):
+    """'float32' -> np.float32 (a type); '>float32' / '<float32' -> np.dtype with that explicit byte order."""
+    if name[0] in '<>':
+        return np.dtype(getattr(np, name[1:])).newbyteorder(name[0])
+    return getattr(np, name)
+
+
 def call_order(spec):
     if spec.get('order'):
         return [tuple(x) for x in spec['order']]
@@ -57,8 +64,25 @@ def _units_value(u):
     return u
 
 
+_SCRATCH = {'list': None}
+
+
 def _attr_arg(a, resolve):
     """Keyword argument for one attribute according to its route ('later' handled by the caller)."""
+    arg = _attr_arg_inner(a, resolve)
+    scratch = _SCRATCH['list']
+    if scratch is not None and not _SCRATCH.get('used_in_call') and isinstance(arg, list) and arg \
+            and all(hasattr(x, 'origin_reference') for x in arg):
+        # the caller re-uses one scratch list object from call to call (once per call: two arguments of one call
+        # cannot be the same list)
+        _SCRATCH['used_in_call'] = True
+        scratch.clear()
+        scratch.extend(arg)
+        return scratch
+    return arg
+
+
+def _attr_arg_inner(a, resolve):
     from dliswriter import AttrSetup
     if 'raw' in a:
         return a['raw']        # passed through verbatim (used for deliberately malformed arguments)
@@ -125,11 +149,13 @@ def build(spec, scratch=None, stop_at=None, tolerate_flagged=False):
     wsrc = (spec.get('write') or {}).get('source', 'inline')
     inline_all = wsrc == 'inline'
     inline_ops = set(((spec.get('write') or {}).get('opts') or {}).get('inline_ops') or []) if wsrc == 'mixed' else set()
+    _SCRATCH['list'] = [] if spec.get('reuse_ref_lists') else None
     for n_done, (i, j) in enumerate(call_order(spec)):
         if stop_at is not None and n_done >= stop_at:
             break
         op = spec['lfs'][i]['ops'][j]
         lf = b.lfs[i]
+        _SCRATCH['used_in_call'] = False
 
         def resolve(k, _i=i):
             return b.items[(_i, k)]
@@ -168,7 +194,7 @@ def build(spec, scratch=None, stop_at=None, tolerate_flagged=False):
                 if op.get('dsname') is not None:
                     kwargs['dataset_name'] = op['dsname']
                 if op.get('cast') is not None:
-                    kwargs['cast_dtype'] = getattr(np, op['cast'])
+                    kwargs['cast_dtype'] = cast_dtype_of(op['cast'])
             if op.get('extra_kw'):
                 kwargs.update(op['extra_kw'])
             item = getattr(lf, t['method'])(op['name'], **kwargs)
